@@ -86,6 +86,16 @@ CLAIMED = {
        'Not yet proved: that an outstanding message is always scheduled (C12 scheduler model).',
   ref='6/C01', technique='Lean 4 proof (ledger conservation by counting, induction over histories) + differential correspondence vs real Queue on 4 backends',
   note='Partial: "keeps being retried" under all interleavings rests on the scheduler model still to be built.'),
+ 'C04': dict(
+  text='PARTIAL (process death; POSIX rename/unlink atomicity and pickle integrity assumed). Lean theorems over Model/DiskFS.lean (every DiskStorage '
+       'operation = a list of atomic file-system effects: temp-file creation, chunk writes, rename, unlink; the process may die after any prefix): '
+       'a meta update cut anywhere leaves the old or the new meta and the envelope untouched; an operation on another message (writes, removals, '
+       'orphan and temp files included) cut anywhere, and any interleaving of such effects, never changes what is recovered for a message; a write is '
+       'visible only complete; a removal in progress hides the message at once. Tied to the code by interposing os.rename/os.remove/mkstemp/chunk '
+       'writes of the real DiskStorage (real pyaio), copying the directories at EVERY effect boundary of every operation (also with two operations '
+       'running concurrently) and reopening each copy with a fresh DiskStorage (load + get), compared with the model and monitored directly.',
+  ref='6/C04', technique='Lean 4 proof (file-system effect prefixes, frame lemmas) + crash-point enumeration of the real DiskStorage vs the model',
+  note='Partial: power loss / fsync ordering is out of scope (the property says the process dies); kernel atomicity assumed.'),
 }
 def main():
     props = [json.loads(l) for l in open(os.path.join(V, 'properties.jsonl'))]
